@@ -22,8 +22,20 @@ and the start from the savepoint URI.
   (memtable/WAL only; tiny memtables: L0; tiny memtables + compactor tuning: deeper levels).
 * Counterexamples of the Dev_ListLatest model (documents holding n and n+1 when the artifact for n is
   built) are replayed as regression witnesses of #23.
+* Overlapping publications: the store publishes every completed checkpoint on its own goroutine, so the
+  model's PubWrite takes the tasks in ANY order; a savepoint whose snapshot write is overtaken by the next
+  checkpoint's publication is superseded on arrival and must still get its artifact (SpFailedOnlyIfDropped /
+  SpProducedUnlessOvertaken: "no savepoint" is acceptable only when retention of a newer published checkpoint
+  has dropped entry n from an operator's document, or a newer publication has removed job snapshot n, before
+  the copy got there). A batch of behaviours is generated with SpHold (the savepoint's write is held at the
+  store gate until the next checkpoint is published) so that every run replays the overlap on the real store.
+* Savepoint chains (Gens = 2): savepoint -> wipe -> start from it (gated like the first job) -> more records,
+  checkpoints, a SECOND savepoint -> wipe -> start from that one: the state and source positions must be those
+  of the second savepoint's own cut. The real store's checkpoint ids of a job started from a savepoint are
+  mapped onto the model's (their values are not C14's subject).
 """
 import copy
+import concurrent.futures
 import json
 import os
 import shutil
@@ -39,10 +51,10 @@ RULE = ("TLC explores every interleaving of periodic checkpoints, the savepoint 
         "after starting from the savepoint URI with the working storage deleted, the source positions, "
         "CreateSavepoint's results and the running job's published checkpoints")
 
-INV = ["TypeOK", "SavepointClosed", "RestoredEqualsSnap", "AtMostOnePending", "PublishedIsCut"]
-PROPS = ["FoldsIntoPending", "Undisturbed"]
+INV = ["TypeOK", "SavepointClosed", "RestoredEqualsSnap", "AtMostOnePending", "PublishedIsCut", "SpProducedUnlessOvertaken"]
+PROPS = ["FoldsIntoPending", "Undisturbed", "SpFailedOnlyIfDropped"]
 BASE = dict(NOps=2, MaxEv=2, MaxCkpt=2, MaxFlush=1, MaxCompact=1, RestoreNs="@{1,2}", Dev_ListLatest=False,
-            RetainKeepsNewer=False, SpAfter=0, MaxLen=100000)
+            RetainKeepsNewer=False, SpAfter=0, SpHold=False, Gens=1, MaxLen=100000)
 
 # data layouts of the replay (harness config): where the operators' state lives when the savepoint is taken
 LAYOUTS = {
@@ -73,7 +85,7 @@ def replayable(b):
 
 
 def harness_cfg(consts, layout, **extra):
-    cfg = {k: v for k, v in consts.items() if k not in ("RestoreNs", "MaxLen")}
+    cfg = {k: v for k, v in consts.items() if k not in ("RestoreNs", "MaxLen", "SpHold", "Gens")}
     cfg.update(LAYOUTS[layout])
     cfg.update(Layout=layout, Chunk=12, ChildTimeoutS=300)
     cfg.update(extra)
@@ -87,24 +99,47 @@ def run_replay(c, behs, consts, layout, label, **extra):
     return res, payload
 
 
-def generated(c, consts, num, seed, layouts, label, depth=60):
+def run_replays(c, jobs):
+    """jobs: (behaviours, consts, layout, label, extra). The replayer runs one cluster at a time, so the jobs run side by
+    side; results are added in job order (deterministic evidence)."""
+    vlib.build("savepoint")
+    payloads = [dict(property="C14", seed=c.seed, config=harness_cfg(consts, lay, **extra), behaviours=behs)
+                for behs, consts, lay, label, extra in jobs]
+    with concurrent.futures.ThreadPoolExecutor(max_workers=3) as ex:
+        futs = [ex.submit(vlib.run_harness, "savepoint", p, 2400) for p in payloads]
+        out = []
+        for f, p, j in zip(futs, payloads, jobs):
+            try:
+                res = f.result()
+            except vlib.MachineryError as e:
+                c.errors.append(str(e)[-3000:])
+                continue
+            c.add_harness(res, p, "Savepoint replay %s [%s] (%d behaviours)" % (j[3], j[2], len(j[0])))
+            out.append((res, p))
+    return out
+
+
+def generated(c, consts, num, seed, layouts, label, depth=60, afters=(0, 1, 2)):
     """simulated behaviours; the savepoint request is spread over the job's life (SpAfter = 0, 1, 2 checkpoint ids handed
     out before it) because a random walk otherwise requests it within the first few steps"""
     behs = []
-    afters = [a for a in (0, 1, 2) if a < consts["MaxCkpt"]]
-    for a in afters:
-        gen = dict(consts, MaxFlush=0, MaxCompact=0, MaxLen=depth, SpAfter=a)  # the layout comes from the harness configuration
-        bs, r = vlib.gen_behaviours("Savepoint", gen, max(num // len(afters), 4), depth + 5, seed * 10 + a)
-        behs += [b for b in bs if replayable(b) and b not in behs]
+    afters = [a for a in afters if a < consts["MaxCkpt"]]
+    gens = [dict(consts, MaxFlush=0, MaxCompact=0, MaxLen=depth, SpAfter=a) for a in afters]  # the layout comes from the harness configuration
+    with concurrent.futures.ThreadPoolExecutor(max_workers=len(gens)) as ex:   # -simulate is single-threaded
+        futs = [ex.submit(vlib.gen_behaviours, "Savepoint", g, max(num // len(afters), 4), depth + 5, seed * 10 + g["SpAfter"]) for g in gens]
+        for f in futs:
+            bs, r = f.result()
+            behs += [b for b in bs if replayable(b) and b not in behs]
     gen = dict(consts, MaxFlush=0, MaxCompact=0, MaxLen=depth)
     if not behs:
         raise vlib.MachineryError("no replayable behaviours generated for " + label)
     # spread the behaviours over the layouts (every behaviour is run under exactly one)
-    out = []
+    jobs = []
     for i, lay in enumerate(layouts):
         part = behs[i::len(layouts)]
         if part:
-            out.append(run_replay(c, part, gen, lay, label))
+            jobs.append((part, gen, lay, label, {}))
+    out = run_replays(c, jobs)
     c.sample(dict(kind="Savepoint behaviour (%s)" % label, config=gen, steps=behs[0][:30]))
     return behs, out
 
@@ -149,6 +184,24 @@ def selftest(c, behs, consts):
             c.extra.setdefault("selftests_passed", []).append(name)
 
 
+def selftest_chain(c, behs, consts):
+    """binding self-test of the chain: the job started from the SECOND savepoint must not resume one event later"""
+    full = [b for b in behs if sum(1 for s in b if s["a"] == "Restore") == 2 and b[-1]["a"] == "Restore"]
+    if not full:
+        c.errors.append("self-test: no complete chain behaviour available")
+        return
+    b = copy.deepcopy(full[0])
+    b[-1]["cut"] += 1 if b[-1]["cut"] < consts["MaxEv"] else -1
+    gen = dict(consts, MaxFlush=0, MaxCompact=0)
+    payload = dict(property="C14", seed=c.seed, config=harness_cfg(gen, "wal"), behaviours=[b])
+    res = vlib.run_harness("savepoint", payload, timeout=600)
+    if not any("resumes the source at" in v.get("what", "") for v in res.get("violations", [])):
+        c.errors.append("self-test 'second restore cut + 1': the replayer did not report the flipped expectation (%s)" %
+                        ([v.get("what", "")[:120] for v in res.get("violations", [])] or res.get("errors")))
+    else:
+        c.extra.setdefault("selftests_passed", []).append("second restore cut + 1")
+
+
 def stage(c, f, *a, **k):
     try:
         return f(*a, **k)
@@ -163,10 +216,15 @@ def run(c):
     try:
         one = dict(BASE, NOps=1, MaxCkpt=3, MaxFlush=2)
         far = dict(BASE, MaxEv=1, MaxCkpt=3, MaxCompact=0)
+        # savepoint chains: the repaired RetainOnly (the tree's) - the job started from a savepoint begins with a retention round
+        chain1 = dict(BASE, NOps=1, MaxCkpt=3, Gens=2, RetainKeepsNewer=True)
+        chain2 = dict(BASE, MaxCkpt=3, MaxFlush=0, MaxCompact=0, Gens=2, RetainKeepsNewer=True)
         if quick:
             exhaustive(c, dict(BASE), "2 operators, 2 events, 2 checkpoints, flush+compaction")
             exhaustive(c, one, "1 operator, 3 checkpoints, 2 flushes + compaction")
             exhaustive(c, far, "2 operators, 3 checkpoints (two further ones before the copy)")
+            exhaustive(c, chain1, "chain of 2 savepoints, 1 operator, 3 checkpoints, flush+compaction")
+            exhaustive(c, dict(chain2, MaxCkpt=2), "chain of 2 savepoints, 2 operators, 2 checkpoints")
         else:
             exhaustive(c, dict(BASE), "2 ops, 2 ckpts")
             exhaustive(c, dict(BASE, RetainKeepsNewer=True), "2 ops, 2 ckpts, RetainOnly keeps newer")
@@ -174,20 +232,41 @@ def run(c):
             exhaustive(c, dict(one, MaxEv=3, RetainKeepsNewer=True), "1 op, 3 events, 3 ckpts, RetainOnly keeps newer", timeout=900)
             exhaustive(c, far, "2 ops, 3 ckpts")
             exhaustive(c, dict(far, RetainKeepsNewer=True, MaxEv=2, MaxFlush=1), "2 ops, 2 events, 3 ckpts, RetainOnly keeps newer", timeout=900)
+            exhaustive(c, chain1, "chain of 2 savepoints, 1 op, 3 ckpts")
+            exhaustive(c, chain2, "chain of 2 savepoints, 2 ops, 3 ckpts")
+            exhaustive(c, dict(chain1, MaxEv=3, MaxCkpt=4, MaxFlush=1, MaxCompact=0, RestoreNs="@{1}"), "chain of 2 savepoints, 1 op, 3 events, 4 ckpts", timeout=900)
         dev_model(c, dict(BASE))
         c.exhaustive = True
 
         g2 = dict(BASE, MaxEv=3, MaxCkpt=3)
         g1 = dict(BASE, NOps=1, MaxEv=3, MaxCkpt=3)
-        n2, n1 = (70, 36) if quick else (420, 220)
+        n2, n1 = (48, 24) if quick else (420, 220)
         r2 = stage(c, generated, c, g2, n2, c.seed * 100 + 1, ["wal", "l0", "deep"], "2 operators")
         stage(c, generated, c, g1, n1, c.seed * 100 + 2, ["wal", "deep", "l0"], "1 operator")
         if not quick:
             stage(c, generated, c, dict(g2, MaxCkpt=4), 200, c.seed * 100 + 3, ["deep", "l0", "wal"], "2 operators, 4 checkpoints", 80)
+        # the savepoint's publication overtaken by the next checkpoint's (held at the store gate)
+        h2, h1 = (14, 8) if quick else (120, 60)
+        stage(c, generated, c, dict(g2, SpHold=True), h2, c.seed * 100 + 6, ["wal", "l0", "deep"], "2 operators, savepoint publication overtaken", 60, (0, 1))
+        stage(c, generated, c, dict(g1, SpHold=True), h1, c.seed * 100 + 7, ["l0", "wal"], "1 operator, savepoint publication overtaken", 60, (0, 1))
+        if not quick:
+            stage(c, generated, c, dict(g2, SpHold=True, MaxCkpt=4, RetainKeepsNewer=True), 90, c.seed * 100 + 8, ["deep", "wal", "l0"],
+                  "2 operators, 4 checkpoints, savepoint publication overtaken", 80)
+        # savepoint chains
+        k2, k1 = (36, 16) if quick else (160, 90)
+        gc2 = dict(g2, MaxEv=4, MaxCkpt=4, Gens=2, RetainKeepsNewer=True)
+        gc1 = dict(g1, MaxEv=4, MaxCkpt=4, Gens=2, RetainKeepsNewer=True)
+        rc = stage(c, generated, c, gc2, k2, c.seed * 100 + 9, ["wal", "l0", "deep"], "2 operators, chain of 2 savepoints", 120, (0, 1))
+        stage(c, generated, c, gc1, k1, c.seed * 100 + 10, ["deep", "wal"], "1 operator, chain of 2 savepoints", 120, (0, 1))
+        if not quick:
+            stage(c, generated, c, dict(gc2, MaxEv=5, MaxCkpt=6, SpHold=True), 60, c.seed * 100 + 11, ["wal", "deep", "l0"],
+                  "2 operators, chain of 2 savepoints, both publications overtaken", 160, (0, 1))
         stage(c, witnesses, c, g2, c.seed * 100 + 4, 8 if quick else 24, ["wal"] if quick else ["wal", "deep"])
         stage(c, witnesses, c, g1, c.seed * 100 + 5, 4 if quick else 12, ["l0"])
         if r2:
             stage(c, selftest, c, r2[0], g2)
+        if rc:
+            stage(c, selftest_chain, c, rc[0], gc2)
         # coverage the tier claims: every layout was actually reached on the real databases
         tot = {}
         for h in c.extra.get("harness_runs", []):
@@ -195,7 +274,8 @@ def run(c):
                 tot[k] = tot.get(k, 0) + v
         c.extra["replay_counters"] = tot
         for k in ("layout_state_in_wal", "layout_state_in_L0", "layout_state_in_deeper_levels", "sp_folded", "sp_created",
-                  "sp_folded_into_later_checkpoint", "doc_latest_is_not_savepoint_id", "restore_2_to_1", "restore_2_to_2", "restore_1_to_2", "restore_1_to_1"):
+                  "sp_folded_into_later_checkpoint", "doc_latest_is_not_savepoint_id", "restore_2_to_1", "restore_2_to_2", "restore_1_to_2", "restore_1_to_1",
+                  "sp_publication_overtaken", "sp_produced_after_overtaken_publication", "chain_restored_job_goes_on", "chain_second_savepoint_restored"):
             if not tot.get(k) and not c.errors:
                 c.errors.append("replay never reached '%s' (vacuous coverage)" % k)
     finally:
@@ -203,8 +283,10 @@ def run(c):
     c.assumptions += [
         "every operator takes its DKV checkpoint when the runners' acknowledgements are released (barrier alignment is C02); "
         "records are delivered only while no checkpoint is in progress at the store",
-        "publications are written in id order (overlapping publications: C13); a retention notification never reaches an "
-        "operator that has already taken a newer DKV checkpoint (DESIGN 7 #28: C09/C13)",
+        "a retention notification never reaches an operator that has already taken a newer DKV checkpoint (DESIGN 7 #28: C09/C13) "
+        "in replayed behaviours; publications finish in any order (a superseded one is not read back: its file goes again)",
+        "savepoint chains keep the worker count (checkpoints of a rescaled job: C06); the checkpoint ids a job started from a "
+        "savepoint hands out are taken from the real store, their values are not judged (C12)",
         "timers: the cluster kit's reference handler sets none; they live in the same DKV files whose completeness is checked",
         "restore into another worker count is read back through the reference handler only; checkpoints of a rescaled job are C06 "
         "(needs the rescale family's repairs for checkpoints opened from several handles)",
